@@ -267,6 +267,8 @@ class Engine:
                 return True
             return bool(v.v)
         if isinstance(v, ZV):
+            if v.ty == 'mode':
+                return self.contract.truth_mode(v)
             if v.ty == 'bool':
                 return v.t
             if v.ty == 'val':
@@ -631,7 +633,15 @@ class Engine:
         if m is None:
             raise OutOfSubset(f"stmt:{type(s).__name__}", s)
         mark = len(self.pending_raises)
-        outs = m(s, st)
+        if self.scouting:
+            # scout runs do not prune infeasible branches; a construct outside the subset on such a branch only drops
+            # that branch here (the real run decides feasibility first and reports it if it is reachable)
+            try:
+                outs = m(s, st)
+            except OutOfSubset:
+                outs = []
+        else:
+            outs = m(s, st)
         if len(self.pending_raises) > mark:
             # exceptions raised inside expressions of this statement (inlined callees, contracted calls)
             outs = outs + self.pending_raises[mark:]
@@ -806,7 +816,7 @@ class Engine:
 
     # ------------------------------------------------------------------ yields
     def do_yield(self, y, st: State) -> List[Outcome]:
-        ordinal = self.yield_ordinals[id(y)]
+        ordinal = self.yield_ordinals.get(id(y), 9000 + getattr(y, 'lineno', 0))
         outs = []
         if isinstance(y, ast.Yield):
             vals = self.eval(y.value, st) if y.value is not None else [(st, NONE)]
@@ -819,6 +829,10 @@ class Engine:
 
     def emit_yield(self, st: State, v: SV, ordinal: int, node) -> List[Outcome]:
         """a suspension point: contract hook produces obligations and the resumed state(s)."""
+        if hasattr(self.contract, 'yield_outcomes'):
+            r = self.contract.yield_outcomes(self, st, v, ordinal, node)
+            if r is not None:
+                return r
         res = self.contract.on_yield(self, st, v, ordinal, node)
         outs = []
         for s2 in res:
